@@ -29,9 +29,9 @@ Keyed/Indexed collections and reflected types are not modelled.
 Deviations of the code from property C13 are carried explicitly, one flag each (`Dev`): `Dev.before` is the
 code as it was when the family was built (every deviation on), `Dev.current` the code as it is now — the
 eight repaired deviations off (/repo 18e5d18 076ef8c a7f7cdd 0eb0265 f263838 99212c8 52aa03a), the pinned
-inclusive reading of slices and DelOne's return at a parent without the member (`delOneAbsent`, found later) still
-on —, `Dev.fixed` has every deviation off. (One more deviation of the code as it is lives outside `Dev`, in the
-driver's reading of the path: `$` inside a final filter of Modify/Remove, Driver.lean `currentT`.) -/
+inclusive reading of slices still on; `delOneAbsent`, found later, repaired by 42fe1d2 —, `Dev.fixed` has every
+deviation off. (One more deviation lived outside `Dev`, in the driver's reading of the path: `$` inside a final filter
+of Modify/Remove, `currentT` below, repaired by 569235d.) -/
 namespace OjgVerif.JPMut
 open OjgVerif OjgVerif.JPath
 
@@ -74,10 +74,14 @@ structure Dev where
 
 /-- the code before the C13 repairs: every deviation present -/
 def Dev.before : Dev := ⟨true, true, true, true, true, true, true, true, true, true⟩
-/-- the code as it is: the pinned inclusive reading of slices (known finding C13-slice-inclusive) and DelOne's return at a
-parent without the member (C13-delone-absent) are left.
+/-- the code as it is: the pinned inclusive reading of slices (known finding C13-slice-inclusive) is left.
 `OjgVerif.C13.current_is_source` ties every other flag to the patched source lines. -/
-def Dev.current : Dev := ⟨true, false, false, false, false, false, false, false, false, true⟩
+def Dev.current : Dev := ⟨true, false, false, false, false, false, false, false, false, false⟩
+/-- the driver-level deviation `t` (filterRootLast) of the code as it is: Modify read a filter in last position, Remove one
+in the last two positions, with the ELEMENT as `$` (`Script.Match`). It lives in the reading of the path (Driver.lean
+`parsePathT`), not in `Dev`: a `Frag.filter` carries a predicate on the element, which document `$` names is fixed
+when the path is read. Off since 569235d (`OjgVerif.C13.currentT_is_source`). -/
+def currentT : Bool := false
 def Dev.fixed : Dev := ⟨false, false, false, false, false, false, false, false, false, false⟩
 
 /-- error classes (the texts of set.go / modify.go / remove.go) -/
